@@ -185,6 +185,26 @@ bool factorial0_is_fast() {
 }
 
 struct Shape { std::vector<uint32_t> order; std::vector<uint64_t> nknots, naxes; };
+static long h_longaxis = 0, h_permuted = 0;
+// rewrite the file with the primary HDU first and the extensions in a random order different from the original when there are >= 2
+static bool permute_extensions(const std::string& path, psv::Rng& r) {
+  fitsfile *in = nullptr, *out = nullptr; int st = 0, nh = 0;
+  std::string tmp = path + ".perm";
+  fits_open_diskfile(&in, path.c_str(), READONLY, &st);
+  fits_get_num_hdus(in, &nh, &st);
+  if (st || nh < 3) { if (in) { int s2 = 0; fits_close_file(in, &s2); } return st == 0; }
+  std::vector<int> ext; for (int h = 2; h <= nh; h++) ext.push_back(h);
+  std::vector<int> orig = ext;
+  for (int tries = 0; tries < 8 && ext == orig; tries++) for (size_t i = ext.size() - 1; i > 0; i--) std::swap(ext[i], ext[r.below(i + 1)]);
+  fits_create_file(&out, ("!" + tmp).c_str(), &st);
+  int type = 0;
+  fits_movabs_hdu(in, 1, &type, &st); fits_copy_hdu(in, out, 0, &st);
+  for (int h : ext) { fits_movabs_hdu(in, h, &type, &st); fits_copy_hdu(in, out, 0, &st); }
+  { int s2 = 0; fits_close_file(in, &s2); }
+  fits_close_file(out, &st);
+  if (st) return false;
+  return rename(tmp.c_str(), path.c_str()) == 0;
+}
 
 }  // namespace
 
@@ -226,6 +246,15 @@ int main(int argc, char** argv) {
       uint64_t np = prod / cur * (cur + add);
       if (np <= 6000) { extra[i] += add; prod = np; }
     }
+    // one long axis (a knot vector of several hundred entries, all other axes short): what is allocated per knot — and held
+    // while a dimension is convolved — then outweighs the slack of the estimate (about 1-2 KB)
+    int longaxis = -1;
+    if (c % 5 == 3 && profile != 'I') {
+      longaxis = (int)r.below(nd);
+      for (int i = 0; i < nd; i++) if (i != longaxis && nd > 1) extra[i] = std::min(extra[i], nd <= 2 ? 6 : 1);
+      extra[longaxis] = r.range(150, nd <= 2 ? 700 : 300);
+      h_longaxis++;
+    }
     for (int i = 0; i < nd; i++) { kn[i] = psv::gen_knots(r, ord[i], extra[i], r.below(2)); h_order[ord[i]]++; }
     h_ndim[nd]++;
     Shape sh; sh.order = ord;
@@ -262,6 +291,7 @@ int main(int argc, char** argv) {
       }
       int naux = (c % 7 == 0) ? 50 : (c % 7 == 1 ? 0 : r.range(0, 50));
       if (profile == 'I') naux = r.range(0, 3);
+      if (longaxis >= 0) naux = r.range(0, 2);   // few keys: their cards must not hide a shortfall per knot
       std::set<std::string> used;
       for (int a = 0; a < naux; a++) {
         bool lk = r.coin(1, 3);
@@ -284,6 +314,12 @@ int main(int argc, char** argv) {
     if (c % 3 != 1) {
       int nplain = (c % 3 == 0) ? r.range(1, 4) : r.range(0, 2);
       if (!add_plain_cards(fits, r, nplain, wrote, h_plainkind)) { fprintf(stderr, "adding plain cards failed for case %ld\n", c); return 3; }
+    }
+    // the same table with its extension HDUs in another order (both the reader and the size model look KNOTSn and EXTENTS up
+    // by name, so the order in the file must not matter to either)
+    if (c % 4 == 2 && profile != 'I') {
+      if (!permute_extensions(fits, r)) { fprintf(stderr, "re-ordering the extensions failed for case %ld\n", c); return 3; }
+      h_permuted++;
     }
     // ---------------------------------------------------------------- cfitsio-only view of the file
     std::vector<Card> cards, kcards;
@@ -396,6 +432,7 @@ int main(int argc, char** argv) {
     for (std::map<int, long>::iterator it = hs[k].m->begin(); it != hs[k].m->end(); ++it) { fprintf(fs, "%s\"%d\":%ld", first ? "" : ",", it->first, it->second); first = false; }
     fprintf(fs, "}");
   }
+  fprintf(fs, ",\"tables_with_one_long_axis_150_to_700_knots\":%ld,\"tables_with_extension_hdus_reordered\":%ld", h_longaxis, h_permuted);
   fprintf(fs, "}\n");
   fclose(fc); fclose(fi); fclose(fs);
   return 0;
